@@ -191,6 +191,33 @@ func init() {
 		for _, rt := range c12ProgRoutes {
 			c.Scenarios = append(c.Scenarios, c04CastScenario(rt))
 		}
+		c.Scenarios = append(c.Scenarios, Scenario{Name: "accepted-expressions-in-contexts", Count: func(string) int { return c05CtxCount() }, Run: func(_ string, idx int, r *Result) {
+			text, tags := c05CtxProgram(idx)
+			a := Analyze(map[string]string{"main": text}, true)
+			if a.Obs.Class == "HOST-PANIC" || !a.Obs.Accepted() {
+				r.Note("not-accepted", 1)
+				return
+			}
+			ov := RunVM(a, defaultOpts())
+			ot := RunTree(a, defaultOpts())
+			r.Obs(ov)
+			r.Trans(2)
+			if crashClass(ov) != "" || crashClass(ot) != "" {
+				r.Note("crash-on-a-backend(C02)", 1)
+				return
+			}
+			r.Sample(text)
+			r.Outcome(ov.Class)
+			r.Distinct(ov.Key())
+			tags = append([]string{"expressions-in-contexts"}, tags...)
+			if ov.Class != ot.Class || ov.Kind != ot.Kind {
+				r.Fail(fmt.Sprintf("BACKENDS-DIFFER:outcome vm=%s%s tree=%s%s", ov.Class, kindSuffix(ov.Kind), ot.Class, kindSuffix(ot.Kind)), tags, text, fmt.Sprintf("vm: %s\ntree: %s", ov.String(), ot.String()))
+			} else if ov.Class == "uncaught" && ov.Msg != ot.Msg {
+				r.Fail("BACKENDS-DIFFER:uncaught-message", tags, text, fmt.Sprintf("vm: %s\ntree: %s", ov.String(), ot.String()))
+			} else if ov.Out != ot.Out {
+				r.Fail("BACKENDS-DIFFER:output", tags, text, fmt.Sprintf("vm: %s\ntree: %s", ov.String(), ot.String()))
+			}
+		}})
 		c.Scenarios = append(c.Scenarios, freeScenario(func(text string, tags []string, a Analyzed, r *Result) {
 			if hasTag(tags, "closure-capture") {
 				r.Note("skipped(closure-capture known finding)", 1)
